@@ -329,6 +329,12 @@ fn one_schedule(ctx: &Ctx, out: &mut Outcome, rng: &mut Rng, idx: u64) {
                         Ok(()) => "ok".to_string(),
                         Err(e) => e,
                     });
+                    // what a reader on this node sees right now (through the node's own catalog cache)
+                    if let Ok(v) = client.list_chunks().await {
+                        let mut m: Vec<(String, i64, i64, u64)> = v.into_iter().map(|e| (e.chunk_path, e.min_timestamp, e.max_timestamp, e.row_count)).collect();
+                        m.sort();
+                        ctl2.mark(&actor2, "READ", &format!("{:?}", m), "");
+                    }
                 }
             }));
         }
@@ -449,6 +455,35 @@ fn one_schedule(ctx: &Ctx, out: &mut Outcome, rng: &mut Rng, idx: u64) {
         if let Some(d) = index_disagreement(&cat) {
             out.violation("C02/index-disagrees-with-chunk-map", &d, witness(&events));
         }
+    }
+    // ---- readers only ever see stored versions: every listing a node served (through its own cache) must be
+    //      the listing of the initial catalog or of some version that was actually stored
+    {
+        let listing = |m: &Model| -> String {
+            let mut v: Vec<(String, i64, i64, u64)> = m.iter().map(|(p, c)| (p.clone(), c.min, c.max, c.rows)).collect();
+            v.sort();
+            format!("{:?}", v)
+        };
+        let mut stored: std::collections::BTreeSet<String> = std::collections::BTreeSet::new();
+        stored.insert(listing(&initial));
+        for (_seq, _actor, payload, _mode, _etag) in &puts {
+            if let Ok(cat) = serde_json::from_slice::<MetadataCatalog>(payload) {
+                stored.insert(listing(&catalog_to_model(&cat)));
+            }
+        }
+        let mut reads = 0u64;
+        for e in events.iter().filter(|e| e.op == "READ") {
+            reads += 1;
+            if !stored.contains(&e.path) {
+                out.violation(
+                    "C02/reader-saw-a-catalog-that-was-never-stored",
+                    &format!("{} served the listing {} which is the listing of no catalog version ever stored", e.actor, e.path.chars().take(300).collect::<String>()),
+                    witness(&events),
+                );
+                break;
+            }
+        }
+        out.count("node_local_reads_checked", reads);
     }
     // successful operations must have committed exactly once
     for (oi, op) in ops.iter().enumerate() {
